@@ -207,6 +207,21 @@ pub fn run(mode: &str, t: &mut Toks) -> Result<String, String> {
                             Err(e) => err_line(&format!("{e}")),
                         })
                     }
+                    "pynode" => {
+                        let name = t.string()?;
+                        // Rust-side rendered data of the same node, for the equality oracle
+                        let rust = match r.render_node(&name) {
+                            Ok(i) => {
+                                let mut o = String::new();
+                                canon_map(&i.parameters, false, &mut o);
+                                format!("ok {o}")
+                            }
+                            Err(e) => err_line(&format!("{e}")),
+                        };
+                        let py = crate::pymode::py_node(r, &name, &case.nodes_root)?;
+                        Ok(format!("{py} ## {rust}"))
+                    }
+                    "pyinv" => crate::pymode::py_inventory(r),
                     "fault" => {
                         // apply a file-system fault after construction, then render
                         let kind = t.next()?.to_string();
